@@ -67,6 +67,8 @@ func C14(c *Ctx) {
 	c.R.Rule("C14-R1", "E5", "duplicate-free, live recipient lists", 4)
 	c.R.Rule("C14-R2", "E6", "reserved ids", 3)
 	c.R.Rule("C14-R3", "E5", "breadth-first FIFO queue; each recipient walked once", 3)
+	c.R.Rule("C14-R5", "E3+E1", "every emitted message is fed back once and reported once, in batches private to one machine (= C08-R5)", 3)
+	crewEmitted(c, "C14-R5")
 	c.R.Rule("C14-R4", "E3", "mcrew fan-out once per emitted message", 1)
 	toM := c.fn("sio", "Crew", "toMachines")
 	allM := c.fn("sio", "Crew", "allMachines")
